@@ -857,3 +857,31 @@ R.spec(F, "InMemoryStorage.set_trial_param", props=["C01", "C03", "C10", "C20"],
        ],
        ensures_all=INV,
        modifies=OWN_TRIALS + ["D:*@spd"])
+
+
+# get_trial_param: the internal representation of the stored (external) value under the stored distribution
+R.spec("optuna/trial/_frozen.py", "FrozenTrial.distributions", inline=True)
+R.spec("optuna/trial/_frozen.py", "FrozenTrial.params", inline=True)
+R.spec(F, "InMemoryStorage.get_trial_param", props=["C01", "C03", "C10"], guarded_by=GUARD, returns_kind="float",
+       requires=INV + ["W4_trial(self, trial_id)"],
+       cases=[
+           case("missing", when=NOT_FOUND_T, raises="KeyError"),
+           case("no-such-param", when="param_name not in tr(self, trial_id)._distributions", raises="KeyError"),
+           case("ok", any_outcome=True, ensures_return=[
+               "result is internal_repr(tr(self, trial_id)._distributions[param_name], tr(self, trial_id)._params[param_name])"]),
+       ],
+       ensures_all=INV + ["same_storage(self)"])
+
+
+@R.specfunc()
+def W4_trial(eng, st, self_sv, trial_id):
+    """dom(params) == dom(distributions) for the trial (what set_trial_param establishes; templates are validated by
+    FrozenTrial._validate before they reach the storage)."""
+    m = _m(eng, st, self_sv)
+    t = m.trial_of(trial_id.term) if hasattr(m, "trial_of") else None
+    if t is None:
+        t = R.specfuncs["tr"](eng, st, self_sv, trial_id)
+    k = z3.String("w4_k")
+    key = SV(KStr, k)
+    p, d = eng.get_field(st, t, "_params"), eng.get_field(st, t, "_distributions")
+    return SV(KBool, qforall([k], eng.dict_has(st, p, key) == eng.dict_has(st, d, key), patterns=[eng.dict_has(st, p, key), eng.dict_has(st, d, key)]))
